@@ -38,19 +38,20 @@ import (
 // ---------------------------------------------------------------------------------------------- behaviours
 
 type Step struct {
-	A         string `json:"a"` // block | tick | agmove | stop | losedb | restart
-	Nb        int    `json:"nb"`
-	Nc        int    `json:"nc"`
-	Kind      string `json:"kind"`
-	Checkfail bool   `json:"checkfail"`
-	O         string `json:"o"`
-	ID        int    `json:"id"`
-	St        string `json:"st"`
-	Storefail int    `json:"storefail"` // k > 0: the first k save attempts fail (retried); k < 0: every attempt fails at statement -k
-	Fin       int    `json:"fin"`       // "finalize": new finalized L1 block
-	Pe        int    `json:"pe"`        // fep: the L2 block at which the prover's proof ends (0 = as requested)
-	Jump      int    `json:"jump"`      // "block": distance to the previous block with events (default 1)
-	Midblock  int    `json:"midblock"`  // "tick": while the node compiles its k-th read of the L2 bridge store, the L2 syncer stores a new block
+	A           string `json:"a"` // block | tick | agmove | stop | losedb | restart
+	Nb          int    `json:"nb"`
+	Nc          int    `json:"nc"`
+	Kind        string `json:"kind"`
+	Checkfail   bool   `json:"checkfail"`
+	O           string `json:"o"`
+	ID          int    `json:"id"`
+	St          string `json:"st"`
+	Storefail   int    `json:"storefail"`   // k > 0: the first k save attempts fail (retried); k < 0: every attempt fails at statement -k
+	Fin         int    `json:"fin"`         // "finalize": new finalized L1 block
+	Pe          int    `json:"pe"`          // fep: the L2 block at which the prover's proof ends (0 = as requested)
+	Jump        int    `json:"jump"`        // "block": distance to the previous block with events (default 1)
+	L1readfault int    `json:"l1readfault"` // "tick": the k-th read of the L1 info store during this tick fails (a storage error)
+	Midblock    int    `json:"midblock"`    // "tick": while the node compiles its k-th read of the L2 bridge store, the L2 syncer stores a new block
 }
 
 type Behaviour struct {
@@ -602,9 +603,16 @@ func runOne(tw *tr.W, root string, idx int, b Behaviour, seed int64) error {
 					}
 				}})
 			}
+			l1path := filepath.Join(dir, "l1info.sqlite")
+			if s.L1readfault > 0 {
+				sqlfault.Arm(l1path, sqlfault.Spec{W: -1, R: s.L1readfault})
+			}
 			crashed := n.tick(s.Kind)
 			if s.Midblock > 0 {
 				sqlfault.Disarm(l2path)
+			}
+			if s.L1readfault > 0 {
+				sqlfault.Disarm(l1path)
 			}
 			n.ag.failHeader, n.ag.failSend, n.ag.crashAt = false, false, ""
 			n.inj.disarm()
